@@ -131,10 +131,13 @@ def r2_fill_defaults(R) -> None:
     c = calls[0]
     star = [k.value for k in c.keywords if k.arg is None]
     kwparam = g.fi.node.args.kwarg.arg if g.fi.node.args.kwarg else None
-    if len(star) != 1 or not isinstance(star[0], ast.Name) or kwparam is None:
+    if len(star) == 1 and isinstance(star[0], ast.Dict) and kwparam is not None:
+        layers = _display_layers(R, g, star[0], kwparam)
+    elif len(star) != 1 or not isinstance(star[0], ast.Name) or kwparam is None:
         raise Unknown(f'{MR}: the per-variable fills handed to the base reindex are `{[text(x) for x in star]}`')
-    K = star[0].id
-    layers = _fill_layers(R, g, K, kwparam)
+    else:
+        K = star[0].id
+        layers = _fill_layers(R, g, K, kwparam)
     for key in ('status', 'iterations'):
         pos = [i for i, l_ in enumerate(layers) if l_ != 'caller' and key in l_]
         ci = layers.index('caller') if 'caller' in layers else None
@@ -177,6 +180,35 @@ def _class_table(R, g, e: ast.AST):
     return None
 
 
+def _display_layers(R, g, v: ast.Dict, kwparam: str):
+    """Layers of a dictionary display `{**a, 'k': x, **b}` (later entries take precedence)."""
+    layers = []
+    cur = {}
+    for k_, v_ in zip(v.keys, v.values):
+        if k_ is None:
+            if cur:
+                layers.append(cur)
+                cur = {}
+            if text(v_) == kwparam:
+                layers.append('caller')
+                continue
+            tab = _class_table(R, g, v_)
+            if tab is None and isinstance(v_, ast.Name) and v_.id in g.lf.locals and v_.id not in g.mutated_in_place():
+                ds = g.assigns_to(v_.id)
+                if len(ds) == 1 and isinstance(ds[0].ast.value, ast.Dict) and all(isinstance(x, ast.Constant) for x in ds[0].ast.value.keys):
+                    tab = {x.value: y for x, y in zip(ds[0].ast.value.keys, ds[0].ast.value.values)}
+            if tab is None:
+                raise Unknown(f'{MR}: `**{text(v_)}` in `{text(v)[:50]}` is not a table this rule can read')
+            layers.append(tab)
+        elif isinstance(k_, ast.Constant):
+            cur[k_.value] = v_
+        else:
+            raise Unknown(f'{MR}: computed key in `{text(v)[:50]}`')
+    if cur:
+        layers.append(cur)
+    return layers
+
+
 def _fill_layers(R, g, K: str, kwparam: str):
     """Layers of the mapping `K` handed on as **K, lowest precedence first ('caller' | {key: default})."""
     layers = None
@@ -215,26 +247,7 @@ def _fill_layers(R, g, K: str, kwparam: str):
             if (is_call(v, 'dict') and len(v.args) == 1 and text(v.args[0]) == kwparam and not v.keywords) or (method_call(v, 'copy') and text(v.func.value) == kwparam):
                 layers = ['caller']
             elif isinstance(v, ast.Dict):
-                layers = []
-                cur = {}
-                for k_, v_ in zip(v.keys, v.values):
-                    if k_ is None:
-                        if cur:
-                            layers.append(cur)
-                            cur = {}
-                        if text(v_) == kwparam:
-                            layers.append('caller')
-                        else:
-                            tab = _class_table(R, g, v_)
-                            if tab is None:
-                                raise Unknown(f'{MR}: `**{text(v_)}` in `{text(a_)[:50]}` is not a table this rule can read')
-                            layers.append(tab)
-                    elif isinstance(k_, ast.Constant):
-                        cur[k_.value] = v_
-                    else:
-                        raise Unknown(f'{MR}: computed key in `{text(a_)[:50]}`')
-                if cur:
-                    layers.append(cur)
+                layers = _display_layers(R, g, v, kwparam)
             elif _class_table(R, g, v) is not None:
                 # K *is* the class-level table (no copy): any change made through K is made to the class, for every instance
                 # and every later call
@@ -350,6 +363,16 @@ def r5_position_map(R) -> None:
                 dc = n.ast.value
                 tgt = n.ast.targets[0] if isinstance(n.ast, ast.Assign) else n.ast.target
                 pairs = ('dictcomp', (text(tgt),), dc.generators[0], dc.key, dc.value, n)
+    # a dictionary keyed by the *label* of the new span holds one position per distinct label
+    for n in f.cfg.nodes:
+        dcs = [x for x in ast.walk(n.ast) if isinstance(x, ast.DictComp)] if n.ast is not None and n.kind == 'stmt' else []
+        for dc in dcs:
+            g_ = dc.generators[0]
+            if len(dc.generators) == 1 and is_call(g_.iter, 'enumerate') and len(g_.iter.args) == 1 and text(g_.iter.args[0]) == 'span' and isinstance(g_.target, ast.Tuple) \
+                    and len(g_.target.elts) == 2 and text(dc.key) == text(g_.target.elts[1]):
+                R.violation(VR, 'pairs-keyed-by-label:' + text(dc)[:60], f'`{text(dc)[:80]}` keys the positions of the new span by label: a label that occurs more than '
+                            f'once in the new span keeps only its last position, so its other occurrences are left at the fill value', where=f.where(n))
+                return
     if pairs is None:
         R.require(VR, 0, 'pairs (new position, old position): positions[new] = self._locate_period_in_span(label)', fi=f.fi, pred=lambda x: is_call(x, LOC))
         return
@@ -387,6 +410,29 @@ def r5_position_map(R) -> None:
             if new_v is None and kind == 'lists' and isinstance(idx, ast.Name) and isinstance(v, ast.Subscript) and isinstance(v.slice, ast.Name) \
                     and {idx.id, v.slice.id} == set(names):
                 new_v, old_v = names      # one fancy-indexed assignment over the two lists
+            if new_v is None and kind in ('dict', 'dictcomp') and isinstance(idx, ast.Name) and isinstance(v, ast.Subscript) and isinstance(v.slice, ast.Name):
+                # one fancy-indexed assignment over list(P.keys()) / list(P.values()); a slice may stand in for such a list only
+                # where the list was compared, element for element, with a range
+                ok_lists = True
+                for (nm2, meth) in ((idx.id, 'keys'), (v.slice.id, 'values')):
+                    for (site_, dv) in f.lf.values_reaching(m.id, nm2):
+                        if dv is not None and is_call(dv, 'list') and len(dv.args) == 1 and text(dv.args[0]) == f'{names[0]}.{meth}()':
+                            continue
+                        if dv is not None and is_call(dv, 'slice'):
+                            facts_ = [text(a_) for (a_, tr_, _tn) in f.xguard_atoms(site_) if tr_]
+                            justified = any('list(range(' in t_ and '==' in t_ for t_ in facts_)
+                            # new positions come out of enumerate() in increasing order: for them, last - first == count - 1 is enough
+                            if meth == 'keys' and any(f'{names[0]}.keys())[-1] - ' in t_ and '== len(' in t_ for t_ in facts_):
+                                justified = True
+                            if not justified:
+                                R.violation(VR, f'window-unjustified:{nm2}', f'`{nm2} = {text(dv)[:50]}` replaces the list of {meth} positions by a slice under '
+                                            f'`{"; ".join(facts_)[:120]}`: first/last positions (and the count) do not make the positions a contiguous increasing run '
+                                            f'(e.g. [0, 2, 1, 3]), so values are copied to or from the wrong periods', where=f.where(f.cfg.nodes[site_]))
+                                return
+                            continue
+                        ok_lists = False
+                if ok_lists:
+                    new_v, old_v = idx.id, v.slice.id
             if new_v is None:
                 raise Unknown(f'{VR}: `{text(m.ast)[:70]}` copies values into the result in a form this rule does not read (slice / window / mask)')
             n_read += 1
